@@ -1,0 +1,25 @@
+//go:build verif
+
+package ch
+
+import "sync/atomic"
+
+// Verification hook (build tag "verif" only): named points inside Do / Ping /
+// Close at which a test controller can record the internal event order or
+// yield/inject between critical sections. No verdict depends on it.
+var verifHook atomic.Pointer[func(name string)]
+
+// VerifSetHook installs (or, with nil, removes) the hook function.
+func VerifSetHook(f func(name string)) {
+	if f == nil {
+		verifHook.Store(nil)
+		return
+	}
+	verifHook.Store(&f)
+}
+
+func verifPoint(name string) {
+	if f := verifHook.Load(); f != nil {
+		(*f)(name)
+	}
+}
